@@ -24,7 +24,20 @@ def judge(ln):
     ax = drop_axis(Vo)
     tol = 1e-3 if FMT.name == 'f32' else 1e-9
     if nh == 0:
-        if L.pts != outer: return ('fail', 'no-holes-changed', 'a polygon without holes was not returned unchanged')
+        if L.pts != outer:
+            # "unchanged" = the polygon's own outer loop, i.e. the input outline minus the vertices Loop3D::push/close dropped as
+            # redundant (|ab x bc| < 1e-5: up to 5e-6 m2 each): an order-preserving (cyclic) subsequence enclosing the same area
+            def cyc_subseq(sub_, full):
+                m = len(full)
+                for st in range(m):
+                    it = iter(full[st:] + full[:st])
+                    if all(any(q == v for q in it) for v in sub_): return True
+                return False
+            dropped = len(outer) - len(L.pts)
+            if dropped <= 0 or len(L.pts) < 3 or not cyc_subseq(L.pts, outer):
+                return ('fail', 'no-holes-changed', 'a polygon without holes was not returned unchanged')
+            if abs(fnorm(vector_area_rel(L.pts)) - fnorm(Vo)) > 5e-6 * dropped + tol * max(fnorm(Vo), 1):
+                return ('fail', 'no-holes-changed', 'a polygon without holes came back with %d vertices less and a different area' % dropped)
     # unobstructed bridges?  (only judge configurations where every hole is clear of the others and of the outline)
     allv = [outer] + holes
     # every input vertex must lie on the merged outline
